@@ -170,7 +170,7 @@ func (rn *vRunner) baseCluster() *arvados.Cluster {
 				MaxProbesPerSecond:   1000,
 				TimeoutSignal:        arvados.Duration(3 * ms * ts),
 				TimeoutStaleRunLock:  arvados.Duration(3 * ms * ts),
-				TimeoutTERM:          arvados.Duration(20 * ms * ts),
+				TimeoutTERM:          arvados.Duration(100 * ms * ts), // 20x PollInterval: as in production, kill requests are re-issued far more often than the give-up deadline (lead; a seeded "deadline pushed on every Kill()" defect went unnoticed at 4x)
 				ResourceTags:         map[string]string{"testtag": "test value"},
 				TagKeyPrefix:         "test:",
 			},
@@ -230,7 +230,7 @@ func vNewRunner(sc *vScenario) (*vRunner, error) {
 			return nil, fmt.Errorf("VERIF-INFRA: generated container %d is not satisfiable: %v", i, err)
 		}
 		queue.Containers = append(queue.Containers, ctr)
-		m.ctrs[ctr.UUID] = &vCtrTrack{idx: i}
+		m.ctrs[ctr.UUID] = &vCtrTrack{idx: i, prioPosSeen: ctr.Priority > 0, lockSeen: ctr.State == arvados.ContainerStateLocked}
 	}
 	sd := &test.StubDriver{
 		HostKey:                      keys.hostPriv,
